@@ -145,7 +145,13 @@ def execute(check: Any, program: Any, prefix: list[int], hash_mode: int = 0, bac
     res.labels = chooser.labels
     res.choices = [p[1] for p in chooser.points]
     res.steps = env.loop.steps if env.loop is not None else 0
+    global MAX_STEPS_SEEN
+    if res.steps > MAX_STEPS_SEEN:
+        MAX_STEPS_SEEN = res.steps
     return res
+
+
+MAX_STEPS_SEEN = 0
 
 
 def _has_replay_divergence(e: BaseException) -> bool:
@@ -229,6 +235,7 @@ def explore_program(check: Any, program: Any, bound: int, max_execs: int, hash_m
                 nontrivial.add(key)
             s["max_dev"] = max(s["max_dev"], cost)
             s["outcomes"][res.outcome] = s["outcomes"].get(res.outcome, 0) + 1
+            s.setdefault("extra", {})["max_steps"] = max(s.setdefault("extra", {}).get("max_steps", 0), res.steps)
             if res.outcome == "horizon":
                 s["errors"].append({"kind": "horizon", "program": program, "choices": res.choices})
             if res.fails:
@@ -273,6 +280,10 @@ def explore_program(check: Any, program: Any, bound: int, max_execs: int, hash_m
                         "outcome": res.outcome,
                     }
                 )
+            if res.outcome == "horizon":
+                # a runaway execution (reported as a violation above): its program is not explored any further
+                s["stopped_after_violations"] = True
+                break
             for i in range(len(prefix), len(pts)):
                 n, c, pre, allowed, _sg = pts[i]
                 if pre and costs[i] + 1 > bound:
